@@ -165,7 +165,7 @@ META = {
                    "original' is what is decided; bit-for-bit equality additionally relies on numpy.linspace returning "
                    "`start` exactly at index 0 (documented NumPy behaviour, not re-proved here).",
     "bounds": {"quick": "m in 2..4, n in {2,3,4}; x symbolic for m<=3 (fixed strategies) else concrete gap grids; "
-                        "parameter grids of rfafam.params_for; integer-typed x or y (int64 array / list of ints) for every strategy at m=4, n=3",
+                        "parameter grids of rfafam.params_for; integer-typed x or y (int64 array / list of ints) for every strategy at m=4, n=3; user sampling functions of three kinds (scalar-only uninterpreted, x-independent constant, vectorised affine) with m in 2..4",
                "thorough": "m in 2..6 (adaptive: m<=4 with n<=4, m=5 with n=2), n in {2,3,4,6}; x symbolic for m<=4"},
     "outside": ["m up to 60, n up to 64", "float rounding of linspace (reals)", "SciPy's CubicSpline numerics (stub)"],
     "assumptions": ["x strictly increasing", "CubicSpline stub: callable returning y_i at x_i and an unconstrained real "
